@@ -171,7 +171,7 @@ func (c *Ctx) peerDataFuncs() map[*ssa.Function]string {
 	}
 	// tunnel-opening negotiation reads peer headers
 	for _, n := range []string{"(*pendingChannel).Start", "newReverseChannel", "(*TunnelServiceHandler).openTunnel", "(*ReverseTunnelServer).Serve"} {
-		if fn := w.Func(n); fn != nil {
+		if fn := w.roleFunc(n); fn != nil {
 			out[fn] = n
 		}
 	}
@@ -460,7 +460,7 @@ func ruleExhaustiveSwitches(c *Ctx, rule string) {
 			fnName := enclosingFunc(f, ts.Pos())
 			key := "type switch over a frame in " + fnName
 			c.check(hasDefault, rule, key+": default arm", w.Pos(ts.Pos()), fmt.Sprintf("arms %v + default", kinds), "this frame type switch has no default arm: a frame kind it does not list (unknown or from a newer peer) falls through silently")
-			if strings.Contains(fnName, "accept") {
+			if a := w.Anchors(); (a.ClientAccept != nil && fnName == a.ClientAccept.Name()) || (a.ServerAccept != nil && fnName == a.ServerAccept.Name()) {
 				c.check(hasNil, rule, key+": nil frame handled", w.Pos(ts.Pos()), "case nil", "the accept switch does not handle a nil frame (a message whose oneof is unset or unknown): it would be handed to the receiver as data")
 			}
 			return true
@@ -637,7 +637,7 @@ func ruleCloseSafety(c *Ctx, rule string) {
 				}
 			}
 			// (e) latch typestate: close on len == 1 edge right after append, re-made on len == 0
-			if fr.Type == "reverseChannels" {
+			if rt, _ := regNames(w); fr.Type == rt {
 				if c.latchCloseOK(call) {
 					c.ok(rule, key, w.At(call), "once per arming: closed exactly on the 0 -> 1 transition under the registry mutex; re-made on the 1 -> 0 transition (C12.5)")
 					continue
@@ -714,7 +714,8 @@ func ruleCloseSafety(c *Ctx, rule string) {
 // latchCloseOK: close(avail) dominated by len(chans) == 1 after an append store, under the registry mutex.
 func (c *Ctx) latchCloseOK(call ssa.CallInstruction) bool {
 	lf := c.W.Locks()
-	if !lf.MustAt(call).has("reverseChannels.mu") {
+	_, regMu := regNames(c.W)
+	if !lf.MustAt(call).has(regMu) {
 		return false
 	}
 	one := false
@@ -724,7 +725,7 @@ func (c *Ctx) latchCloseOK(call ssa.CallInstruction) bool {
 			continue
 		}
 		if lc, isC := x.(*ssa.Call); isC && calleeName(lc) == "builtin.len" {
-			if fr, _, isF := loadedField(lc.Call.Args[0]); isF && fr.Field == "chans" {
+			if fr, _, isF := loadedField(lc.Call.Args[0]); isF && fr.Field == c.W.Roles().RegChans {
 				if k, isK := constInt(y); isK && k == 1 && op == token.EQL {
 					one = true
 				}
@@ -794,7 +795,7 @@ func ruleTimeoutApplied(c *Ctx, rule string) {
 		if pc != nil {
 			// parser fed with this frame's request headers
 			d := desc(pc.Call.Args[0])
-			c.check(strings.Contains(d, "fromProto(") && strings.HasSuffix(d, ".RequestHeaders)"), rule, w.Short(a.Create)+": parser reads this request's headers", w.At(pc), d, "the parser is given "+d+", not this request's headers")
+			c.check(w.isConvOfField(pc.Call.Args[0], "fromProto", "RequestHeaders"), rule, w.Short(a.Create)+": parser reads this request's headers", w.At(pc), d, "the parser is given "+d+", not this request's headers")
 			g := false
 			for _, f := range boolFactsAt(call) {
 				if e2, ok := f.V.(*ssa.Extract); ok && e2.Tuple == ssa.Value(pc) && e2.Index == 1 && f.True {
